@@ -916,3 +916,413 @@ Section HeapProofs.
     - apply sort_bins_length.
     - rewrite Eb. apply overwrite_length. rewrite map_length, Lp. apply (hw_fit _ _ _ _ Hw).
   Qed.
+
+  (** ** copy_bins and remove_bins *)
+  Definition copy_handle (st : hstate) (hd : handle) : hstate * handle :=
+    let vals := view_vals st (h_view hd) in
+    match h_outer hd with
+    | None => (mk_hstate (bufs st ++ [vals]) (inners st) (outers st) (handles st),
+               mk_handle (mk_view (length (bufs st)) (length vals)) None)
+    | Some ou =>
+        let ls := map (inner_of st) (outer_of st ou) in
+        (mk_hstate (bufs st ++ [vals]) (inners st ++ ls)
+                   (outers st ++ [range_from (length (inners st)) (length ls)]) (handles st),
+         mk_handle (mk_view (length (bufs st)) (length vals)) (Some (length (outers st))))
+    end.
+
+  Lemma copy_handle_spec st hd k b : hwf st hd k b ->
+    exists st1 hn, copy_handle st hd = (st1, hn) /\ ext st st1 /\ handles st1 = handles st /\
+      hwf st1 hn k b /\ (length (bufs st) <= v_buf (h_view hn))%nat /\
+      (forall o, h_outer hn = Some o -> (length (outers st) <= o)%nat) /\
+      (forall i, In i (ids_of st1 hn) -> (length (inners st) <= i)%nat).
+  Proof.
+    intros Hw. pose proof (hwf_vals_length _ _ _ _ Hw) as Lv.
+    pose proof (hw_kind _ _ _ _ Hw) as K. pose proof (hw_abs _ _ _ _ Hw) as Ha.
+    pose proof (hw_olen _ _ _ _ Hw) as Ol.
+    unfold copy_handle, kind_of, abs_handle in *. destruct (h_outer hd) as [ou|];
+      (eexists _, _; split; [reflexivity|]); (split; [|split; [reflexivity|split; [|split; [|split]]]]).
+    - repeat split; cbn [bufs inners outers]; eexists; reflexivity.
+    - rewrite <- Ha, <- K. rewrite map_length, (Ol ou eq_refl), <- Lv.
+      apply fresh_contents_hwf; [reflexivity|]. rewrite map_length, (Ol ou eq_refl). symmetry. exact Lv.
+    - cbn [h_view v_buf]. lia.
+    - cbn [h_outer]. intros o Ho. injection Ho as <-. lia.
+    - unfold ids_of, outer_of. cbn [h_outer outers]. rewrite nth_snoc_last. intros i Hi.
+      apply range_from_In in Hi. lia.
+    - repeat split; cbn [bufs inners outers]; [eexists; reflexivity|exists []; rewrite app_nil_r; reflexivity..].
+    - rewrite <- Ha, <- K. apply fresh_sums_hwf. reflexivity.
+    - cbn [h_view v_buf]. lia.
+    - cbn [h_outer]. intros o Ho. discriminate.
+    - unfold ids_of. cbn [h_outer]. intros i Hi. contradiction.
+  Qed.
+
+  Definition remove_handle (st : hstate) (hd : handle) (n : nat) : hstate * handle :=
+    let m := (v_len (h_view hd) - n)%nat in
+    match h_outer hd with
+    | None => (st, mk_handle (mk_view (v_buf (h_view hd)) m) None)
+    | Some ou =>
+        let old := outer_of st ou in
+        (mk_hstate (bufs st) (inners st) (outers st ++ [firstn (length old - n) old]) (handles st),
+         mk_handle (mk_view (v_buf (h_view hd)) m) (Some (length (outers st))))
+    end.
+
+  Lemma remove_handle_spec st hd k b n : hwf st hd k b ->
+    exists st1 hn, remove_handle st hd n = (st1, hn) /\ ext st st1 /\ handles st1 = handles st /\
+      hwf st1 hn k (remove_bins b n) /\ v_buf (h_view hn) = v_buf (h_view hd) /\
+      (forall o, h_outer hn = Some o -> (length (outers st) <= o)%nat) /\
+      (forall i, In i (ids_of st1 hn) -> In i (ids_of st hd)).
+  Proof.
+    intros Hw. pose proof (hwf_vals_length _ _ _ _ Hw) as Lv.
+    pose proof (hw_kind _ _ _ _ Hw) as K. pose proof (hw_abs _ _ _ _ Hw) as Ha.
+    pose proof (hw_olen _ _ _ _ Hw) as Ol. pose proof (hw_len _ _ _ _ Hw) as Hl.
+    pose proof (hw_fit _ _ _ _ Hw) as Hf. pose proof (hw_buf _ _ _ _ Hw) as Hb.
+    pose proof (hw_nodup _ _ _ _ Hw) as Nd. pose proof (hw_ids _ _ _ _ Hw) as Hi.
+    pose proof (hw_outer _ _ _ _ Hw) as Hou.
+    unfold remove_handle, remove_bins, kind_of, abs_handle, ids_of in *. destruct (h_outer hd) as [ou|];
+      (eexists _, _; split; [reflexivity|]); (split; [|split; [reflexivity|split; [|split; [|split]]]]).
+    - repeat split; cbn [bufs inners outers]; [exists []; rewrite app_nil_r; reflexivity..|eexists; reflexivity].
+    - specialize (Ol ou eq_refl). specialize (Hou ou eq_refl).
+      constructor; unfold ids_of, abs_handle, view_vals, buf_of, outer_of, inner_of, kind_of;
+        cbn [h_outer h_view v_buf v_len bufs inners outers]; rewrite ?nth_snoc_last.
+      + rewrite <- Hl, <- Ha. unfold view_vals, buf_of, outer_of, inner_of in *.
+        unfold bin. rewrite combine_firstn, firstn_firstn, firstn_map, Ol.
+        rewrite Nat.min_l by lia. reflexivity.
+      + unfold bin in *. rewrite firstn_length. lia.
+      + exact Hb.
+      + unfold buf_of in Hf. lia.
+      + exact K.
+      + intros o Ho. injection Ho as <-. rewrite app_length. cbn [length]. lia.
+      + intros o Ho. injection Ho as <-. rewrite nth_snoc_last, firstn_length. unfold outer_of in Ol. lia.
+      + apply NoDup_firstn. exact Nd.
+      + intros i Hin. apply Hi. eapply In_firstn; eauto.
+    - reflexivity.
+    - cbn [h_outer]. intros o Ho. injection Ho as <-. lia.
+    - unfold outer_of. cbn [h_outer outers]. rewrite nth_snoc_last. intros i Hin. eapply In_firstn; eauto.
+    - apply ext_refl.
+    - constructor; unfold ids_of, abs_handle, view_vals, kind_of; cbn [h_outer h_view v_buf v_len].
+      + rewrite <- Hl, <- Ha. unfold view_vals, bin. rewrite firstn_map, firstn_firstn. rewrite Nat.min_l by lia. reflexivity.
+      + unfold bin in *. rewrite firstn_length. lia.
+      + exact Hb.
+      + lia.
+      + exact K.
+      + intros o Ho. discriminate.
+      + intros o Ho. discriminate.
+      + constructor.
+      + intros i Hin. contradiction.
+    - reflexivity.
+    - cbn [h_outer]. intros o Ho. discriminate.
+    - cbn [h_outer]. intros i Hin. contradiction.
+  Qed.
+
+  (** ** the allocating branches of [step], as [add_handle] of the constructions above *)
+  Lemma step_copy_eq st h hd : nth_opt (handles st) h = Some hd ->
+    step valueof st (OpCopy h) = add_handle (fst (copy_handle st hd)) (snd (copy_handle st hd)).
+  Proof.
+    intros Hn. cbn [step]. rewrite Hn. unfold copy_handle, alloc_buf. cbv beta iota zeta.
+    destruct (h_outer hd) as [ou|]; [|reflexivity].
+    rewrite alloc_inners_spec. unfold alloc_outer. reflexivity.
+  Qed.
+
+  Lemma step_remove_eq st h hd n : nth_opt (handles st) h = Some hd ->
+    step valueof st (OpRemove h n) = add_handle (fst (remove_handle st hd n)) (snd (remove_handle st hd n)).
+  Proof.
+    intros Hn. cbn [step]. rewrite Hn. unfold remove_handle, alloc_outer. cbv beta iota zeta.
+    destruct (h_outer hd) as [ou|]; reflexivity.
+  Qed.
+
+  Lemma step_concat_eq st h1 h2 hd1 hd2 :
+    nth_opt (handles st) h1 = Some hd1 -> nth_opt (handles st) h2 = Some hd2 -> kind_of hd1 = kind_of hd2 ->
+    step valueof st (OpConcat h1 h2) = add_handle (fst (concat_handles st hd1 hd2)) (snd (concat_handles st hd1 hd2)).
+  Proof.
+    intros H1 H2 K. cbn [step]. rewrite H1, H2. unfold concat_handles, alloc_buf, alloc_outer, kind_of in *.
+    cbv beta iota zeta. destruct (h_outer hd1) as [o1|]; destruct (h_outer hd2) as [o2|]; try discriminate; reflexivity.
+  Qed.
+
+  Lemma step_addempty_eq st h hd n st1 hn :
+    nth_opt (handles st) h = Some hd -> new_handle st (kind_of hd) n = (st1, hn) -> kind_of hn = kind_of hd ->
+    step valueof st (OpAddEmpty h n) = add_handle (fst (concat_handles st1 hd hn)) (snd (concat_handles st1 hd hn)).
+  Proof.
+    intros Hn E K. cbn [step]. rewrite Hn.
+    change (match h_outer hd with Some _ => true | None => false end) with (kind_of hd). rewrite E.
+    unfold concat_handles, alloc_buf, alloc_outer, kind_of in *.
+    cbv beta iota zeta. destruct (h_outer hd) as [o1|]; destruct (h_outer hn) as [o2|]; try discriminate; reflexivity.
+  Qed.
+
+  (** * (d) the one-step simulation *)
+  Lemma inv_alloc_fresh st ps st1 hn ps0 k b :
+    Inv st ps -> ext st st1 -> handles st1 = handles st ->
+    length ps0 = length ps -> (forall g e, plive ps0 g = Some e -> plive ps g = Some e) ->
+    hwf st1 hn k b -> (length (bufs st) <= v_buf (h_view hn))%nat ->
+    (forall o, h_outer hn = Some o -> (length (outers st) <= o)%nat) ->
+    (forall g hdg e i, plive ps0 g = Some e -> nth_opt (handles st) g = Some hdg ->
+       In i (ids_of st hdg) -> In i (ids_of st1 hn) -> False) ->
+    Inv (add_handle st1 hn) (ps0 ++ [Some (k, b)]).
+  Proof.
+    intros HI He Hh Hl Hsub Hw Hb Ho Hdis.
+    assert (He' : ext st (add_handle st1 hn)) by (eapply ext_trans; [exact He|apply ext_add_handle]).
+    apply (inv_alloc st ps (add_handle st1 hn) ps0 hn k b); auto.
+    - unfold add_handle. cbn [handles]. rewrite Hh. reflexivity.
+    - apply (hwf_ext st1); [apply ext_add_handle|exact Hw].
+    - intros g hdg [kg bg] Hp Hn. destruct HI as (_ & HW & _).
+      apply (sep_fresh st _ hdg kg bg); auto.
+      + eapply HW; eauto.
+      + intros i H1 H2. eapply Hdis; eauto.
+  Qed.
+
+  Lemma inv_inplace' st ps st' h hd k b b' :
+    Inv st ps -> handles st' = handles st ->
+    nth_opt (handles st) h = Some hd -> plive ps h = Some (k, b) ->
+    mod_only st st' (v_buf (h_view hd)) (ids_of st hd) (h_outer hd) /\
+    hwf st' hd k b' /\ Permutation (ids_of st' hd) (ids_of st hd) ->
+    Inv st' (update h (fun _ => Some (k, b')) ps).
+  Proof.
+    intros HI Hh Hn Hp (Hm & Hw & Hperm). eapply inv_inplace; eauto.
+    intros i Hi. eapply Permutation_in; eauto.
+  Qed.
+
+  Lemma inv_sep st ps h1 h2 hd1 hd2 e1 e2 : Inv st ps -> h1 <> h2 ->
+    nth_opt (handles st) h1 = Some hd1 -> nth_opt (handles st) h2 = Some hd2 ->
+    plive ps h1 = Some e1 -> plive ps h2 = Some e2 -> sep st hd1 hd2.
+  Proof. intros (_ & _ & Hs). apply Hs. Qed.
+
+  Lemma inv_hwf st ps h hd k b : Inv st ps ->
+    nth_opt (handles st) h = Some hd -> plive ps h = Some (k, b) -> hwf st hd k b.
+  Proof. intros (_ & Hw & _). apply Hw. Qed.
+
+  (** what an allocating step does to the heap besides the invariant: it only appends *)
+  Definition appends (st st' : hstate) : Prop :=
+    ext st st' /\ exists hd', handles st' = handles st ++ [hd'].
+
+  Lemma appends_add_handle st st1 hn : ext st st1 -> handles st1 = handles st -> appends st (add_handle st1 hn).
+  Proof.
+    intros He Hh. split; [eapply ext_trans; [exact He|apply ext_add_handle]|].
+    exists hn. unfold add_handle. cbn [handles]. rewrite Hh. reflexivity.
+  Qed.
+
+  Lemma sim_new st ps keep n : Inv st ps ->
+    Inv (step valueof st (OpNew keep n)) (pure_step valueof ps (OpNew keep n)) /\
+    appends st (step valueof st (OpNew keep n)).
+  Proof.
+    intros HI. cbn [step pure_step].
+    destruct (new_handle_spec st keep n) as (st1 & hn & E & He & Hh & Hw & Hb & Ho & Hi). rewrite E.
+    split; [|apply appends_add_handle; auto].
+    apply (inv_alloc_fresh st ps st1 hn ps keep (new_bins n)); auto.
+    intros g hdg [kg bg] i Hp Hn H1 H2.
+    pose proof (hw_ids _ _ _ _ (inv_hwf _ _ _ _ _ _ HI Hn Hp) i H1). specialize (Hi i H2). lia.
+  Qed.
+
+  Lemma sim_copy st ps h : Inv st ps -> disciplined ps (OpCopy h) ->
+    Inv (step valueof st (OpCopy h)) (pure_step valueof ps (OpCopy h)) /\
+    appends st (step valueof st (OpCopy h)).
+  Proof.
+    intros HI [[k b] Hp]. destruct (hwf_lookup _ _ _ _ _ HI Hp) as (hd & Hn & Hw).
+    rewrite (step_copy_eq _ _ _ Hn). cbn [pure_step]. rewrite Hp.
+    destruct (copy_handle_spec _ _ _ _ Hw) as (st1 & hn & E & He & Hh & Hw1 & Hb & Ho & Hi).
+    rewrite E. cbn [fst snd]. split; [|apply appends_add_handle; auto].
+    apply (inv_alloc_fresh st ps st1 hn ps k b); auto.
+    intros g hdg [kg bg] i Hpg Hng H1 H2.
+    pose proof (hw_ids _ _ _ _ (inv_hwf _ _ _ _ _ _ HI Hng Hpg) i H1). specialize (Hi i H2). lia.
+  Qed.
+
+  Lemma sim_addempty st ps h n : Inv st ps -> disciplined ps (OpAddEmpty h n) ->
+    Inv (step valueof st (OpAddEmpty h n)) (pure_step valueof ps (OpAddEmpty h n)) /\
+    appends st (step valueof st (OpAddEmpty h n)).
+  Proof.
+    intros HI [[k b] Hp]. destruct (hwf_lookup _ _ _ _ _ HI Hp) as (hd & Hn & Hw).
+    destruct (new_handle_spec st (kind_of hd) n) as (st1 & hn & E & He & Hh & Hwn & Hbn & Hon & Hin).
+    pose proof (hw_kind _ _ _ _ Hwn) as Kn.
+    rewrite (step_addempty_eq _ _ _ _ _ _ Hn E Kn). cbn [pure_step]. rewrite Hp.
+    rewrite (hw_kind _ _ _ _ Hw) in Hwn.
+    assert (Hw1 : hwf st1 hd k b) by (eapply hwf_ext; eauto).
+    destruct (concat_handles_spec st1 hd hn k b (new_bins n) Hw1 Hwn)
+      as (st2 & hd' & E2 & He2 & Hh2 & Hw2 & Hb2 & Ho2 & Hi2).
+    { intros i H1 H2. rewrite (ids_of_ext _ _ _ _ _ He Hw) in H1.
+      pose proof (hw_ids _ _ _ _ Hw i H1). specialize (Hin i H2). lia. }
+    rewrite E2. cbn [fst snd]. unfold add_empty_bins.
+    pose proof (ext_lengths _ _ He) as (L1 & L2 & L3).
+    split; [|apply appends_add_handle; [eapply ext_trans; eauto|congruence]].
+    apply (inv_alloc_fresh st ps st2 hd' (kill h ps) k (b ++ new_bins n)); auto.
+    - eapply ext_trans; eauto.
+    - congruence.
+    - apply kill_length.
+    - intros g e Hg. apply plive_kill in Hg. tauto.
+    - lia.
+    - intros o Ho. specialize (Ho2 o Ho). lia.
+    - intros g hdg [kg bg] i Hpg Hng H1 H2. apply plive_kill in Hpg. destruct Hpg as [Hne Hpg].
+      rewrite Hi2 in H2. apply in_app_or in H2. destruct H2 as [H2|H2].
+      + rewrite (ids_of_ext _ _ _ _ _ He Hw) in H2.
+        destruct (inv_sep _ _ _ _ _ _ _ _ HI Hne Hng Hn Hpg Hp) as (_ & _ & S3). eapply S3; eauto.
+      + pose proof (hw_ids _ _ _ _ (inv_hwf _ _ _ _ _ _ HI Hng Hpg) i H1). specialize (Hin i H2). lia.
+  Qed.
+
+  Lemma sim_remove st ps h n : Inv st ps -> disciplined ps (OpRemove h n) ->
+    Inv (step valueof st (OpRemove h n)) (pure_step valueof ps (OpRemove h n)) /\
+    appends st (step valueof st (OpRemove h n)).
+  Proof.
+    intros HI (k & b & Hp & _). destruct (hwf_lookup _ _ _ _ _ HI Hp) as (hd & Hn & Hw).
+    rewrite (step_remove_eq _ _ _ _ Hn). cbn [pure_step]. rewrite Hp.
+    destruct (remove_handle_spec st hd k b n Hw) as (st1 & hn & E & He & Hh & Hw1 & Hb & Ho & Hi).
+    rewrite E. cbn [fst snd].
+    assert (He' : ext st (add_handle st1 hn)) by (eapply ext_trans; [exact He|apply ext_add_handle]).
+    split; [|apply appends_add_handle; auto].
+    apply (inv_alloc st ps (add_handle st1 hn) (kill h ps) hn k (remove_bins b n)); auto.
+    - unfold add_handle. cbn [handles]. rewrite Hh. reflexivity.
+    - apply kill_length.
+    - intros g e Hg. apply plive_kill in Hg. tauto.
+    - apply (hwf_ext st1); [apply ext_add_handle|exact Hw1].
+    - intros g hdg [kg bg] Hpg Hng. apply plive_kill in Hpg. destruct Hpg as [Hne Hpg].
+      pose proof (inv_hwf _ _ _ _ _ _ HI Hng Hpg) as Hwg.
+      destruct (inv_sep _ _ _ _ _ _ _ _ HI Hne Hng Hn Hpg Hp) as (S1 & S2 & S3).
+      repeat split.
+      + rewrite Hb. exact S1.
+      + intros o Hog Hon. pose proof (hw_outer _ _ _ _ Hwg o Hog). specialize (Ho o Hon). lia.
+      + intros i H1 H2. rewrite (ids_of_ext _ _ _ _ _ He' Hwg) in H1. apply (S3 i H1). apply Hi. exact H2.
+  Qed.
+
+  Lemma sim_concat st ps h1 h2 : Inv st ps -> disciplined ps (OpConcat h1 h2) ->
+    Inv (step valueof st (OpConcat h1 h2)) (pure_step valueof ps (OpConcat h1 h2)) /\
+    appends st (step valueof st (OpConcat h1 h2)).
+  Proof.
+    intros HI (Hne & k & b1 & b2 & P1 & P2).
+    destruct (hwf_lookup _ _ _ _ _ HI P1) as (hd1 & N1 & W1).
+    destruct (hwf_lookup _ _ _ _ _ HI P2) as (hd2 & N2 & W2).
+    rewrite (step_concat_eq _ _ _ _ _ N1 N2)
+      by (rewrite (hw_kind _ _ _ _ W1), (hw_kind _ _ _ _ W2); reflexivity).
+    cbn [pure_step]. rewrite P1, P2.
+    destruct (inv_sep _ _ _ _ _ _ _ _ HI Hne N1 N2 P1 P2) as (_ & _ & S3).
+    destruct (concat_handles_spec st hd1 hd2 k b1 b2 W1 W2 S3) as (st' & hd' & E & He & Hh & Hw & Hb & Ho & Hi).
+    rewrite E. cbn [fst snd]. unfold concatenate_bins.
+    split; [|apply appends_add_handle; auto].
+    apply (inv_alloc_fresh st ps st' hd' (kill h2 (kill h1 ps)) k (b1 ++ b2)); auto.
+    - rewrite !kill_length. reflexivity.
+    - intros g e Hg. apply plive_kill in Hg. destruct Hg as [_ Hg]. apply plive_kill in Hg. tauto.
+    - intros g hdg [kg bg] i Hpg Hng H1 H2. apply plive_kill in Hpg. destruct Hpg as [Hn2 Hpg].
+      apply plive_kill in Hpg. destruct Hpg as [Hn1 Hpg].
+      rewrite Hi in H2. apply in_app_or in H2. destruct H2 as [H2|H2].
+      + destruct (inv_sep _ _ _ _ _ _ _ _ HI Hn1 Hng N1 Hpg P1) as (_ & _ & T3). eapply T3; eauto.
+      + destruct (inv_sep _ _ _ _ _ _ _ _ HI Hn2 Hng N2 Hpg P2) as (_ & _ & T3). eapply T3; eauto.
+  Qed.
+
+  Lemma sim_add st ps h x i : Inv st ps -> disciplined ps (OpAdd h x i) ->
+    Inv (step valueof st (OpAdd h x i)) (pure_step valueof ps (OpAdd h x i)).
+  Proof.
+    intros HI (k & b & Hp & Hi). destruct (hwf_lookup _ _ _ _ _ HI Hp) as (hd & Hn & Hw).
+    pose proof (hw_len _ _ _ _ Hw) as Hl.
+    assert (Hi' : (i < v_len (h_view hd))%nat) by lia.
+    cbn [step pure_step]. rewrite Hn, Hp. rewrite (proj2 (Nat.ltb_lt _ _) Hi').
+    destruct k.
+    - destruct (hwf_contents_outer _ _ _ Hw) as [ou Ho]. rewrite Ho.
+      change (outer_of (set_buf st (v_buf (h_view hd)) (update i (fun s => s + valueof x))) ou)
+        with (outer_of st ou).
+      assert (Hinn : nth_opt (outer_of st ou) i = Some (nth i (outer_of st ou) O)).
+      { apply nth_opt_lt. rewrite (hw_olen _ _ _ _ Hw ou Ho). exact Hi'. }
+      rewrite Hinn.
+      eapply (inv_inplace' st ps _ h hd true b); [exact HI|reflexivity|exact Hn|exact Hp|].
+      exact (bump_contents st hd b ou i _ (fun s => s + valueof x) (fun l => l ++ [x]) Hw Ho Hi' Hinn).
+    - rewrite (hwf_sums_outer _ _ _ Hw).
+      eapply (inv_inplace' st ps _ h hd false b); [exact HI|reflexivity|exact Hn|exact Hp|].
+      exact (bump_sums st hd b i (fun s => s + valueof x) Hw Hi').
+  Qed.
+
+  Lemma sim_sort st ps h : Inv st ps -> disciplined ps (OpSort h) ->
+    Inv (step valueof st (OpSort h)) (pure_step valueof ps (OpSort h)).
+  Proof.
+    intros HI [[k b] Hp]. destruct (hwf_lookup _ _ _ _ _ HI Hp) as (hd & Hn & Hw).
+    cbn [step pure_step]. rewrite Hn, Hp. destruct k.
+    - destruct (hwf_contents_outer _ _ _ Hw) as [ou Ho]. rewrite Ho.
+      eapply (inv_inplace' st ps _ h hd true b); [exact HI|reflexivity|exact Hn|exact Hp|].
+      exact (sort_contents st hd b ou Hw Ho).
+    - rewrite (hwf_sums_outer _ _ _ Hw).
+      eapply (inv_inplace' st ps _ h hd false b); [exact HI|reflexivity|exact Hn|exact Hp|].
+      exact (sort_sums st hd b Hw).
+  Qed.
+
+  Lemma sim_combine st ps h1 i1 h2 i2 : Inv st ps -> disciplined ps (OpCombine h1 i1 h2 i2) ->
+    Inv (step valueof st (OpCombine h1 i1 h2 i2)) (pure_step valueof ps (OpCombine h1 i1 h2 i2)).
+  Proof.
+    intros HI (Hne & k & b1 & b2 & P1 & P2 & Hi1 & Hi2).
+    destruct (hwf_lookup _ _ _ _ _ HI P1) as (hd1 & N1 & W1).
+    destruct (hwf_lookup _ _ _ _ _ HI P2) as (hd2 & N2 & W2).
+    pose proof (hw_len _ _ _ _ W1) as L1. pose proof (hw_len _ _ _ _ W2) as L2.
+    assert (Hi1' : (i1 < v_len (h_view hd1))%nat) by lia.
+    assert (Hi2' : (i2 < v_len (h_view hd2))%nat) by lia.
+    pose proof (hwf_vals_length _ _ _ _ W2) as Lv2.
+    cbn [step pure_step]. rewrite N1, N2, P1, P2.
+    rewrite (proj2 (Nat.ltb_lt _ _) Hi1'), (proj2 (Nat.ltb_lt _ _) Hi2'). cbn [andb].
+    set (add := nth i2 (view_vals st (h_view hd2)) 0).
+    set (st1 := set_buf st (v_buf (h_view hd1)) (update i1 (fun s => s + add))).
+    assert (Ev2 : nth_opt (view_vals st (h_view hd2)) i2 = Some add) by (apply nth_opt_lt; lia).
+    destruct k.
+    - destruct (hwf_contents_outer _ _ _ W1) as [o1 Ho1]. destruct (hwf_contents_outer _ _ _ W2) as [o2 Ho2].
+      rewrite Ho1, Ho2.
+      change (outer_of st1 o1) with (outer_of st o1). change (outer_of st1 o2) with (outer_of st o2).
+      assert (Hinn1 : nth_opt (outer_of st o1) i1 = Some (nth i1 (outer_of st o1) O)).
+      { apply nth_opt_lt. rewrite (hw_olen _ _ _ _ W1 o1 Ho1). exact Hi1'. }
+      assert (Hinn2 : nth_opt (outer_of st o2) i2 = Some (nth i2 (outer_of st o2) O)).
+      { apply nth_opt_lt. rewrite (hw_olen _ _ _ _ W2 o2 Ho2). exact Hi2'. }
+      rewrite Hinn1, Hinn2.
+      set (in2 := nth i2 (outer_of st o2) O) in *. change (inner_of st1 in2) with (inner_of st in2).
+      assert (Eb2 : nth_opt b2 i2 = Some (add, inner_of st in2)).
+      { rewrite <- (hw_abs _ _ _ _ W2). unfold abs_handle. rewrite Ho2. unfold bin.
+        rewrite nth_opt_combine, nth_opt_map, Hinn2, Ev2. reflexivity. }
+      unfold combine_bins. rewrite Eb2.
+      eapply (inv_inplace' st ps _ h1 hd1 true b1); [exact HI|reflexivity|exact N1|exact P1|].
+      exact (bump_contents st hd1 b1 o1 i1 _ (fun s => s + add) (fun l => l ++ inner_of st in2) W1 Ho1 Hi1' Hinn1).
+    - rewrite (hwf_sums_outer _ _ _ W1), (hwf_sums_outer _ _ _ W2).
+      assert (Eb2 : nth_opt b2 i2 = Some (add, [])).
+      { rewrite <- (hw_abs _ _ _ _ W2). unfold abs_handle. rewrite (hwf_sums_outer _ _ _ W2). unfold bin.
+        rewrite nth_opt_map, Ev2. reflexivity. }
+      unfold combine_bins. rewrite Eb2.
+      assert (Eu : update i1 (fun y : bin A => combine_bin y (add, [])) b1 =
+                   update i1 (fun p : bin A => (fst p + add, snd p)) b1).
+      { apply update_ext. intros y _. unfold combine_bin. cbn [fst snd]. rewrite app_nil_r. reflexivity. }
+      rewrite Eu.
+      eapply (inv_inplace' st ps _ h1 hd1 false b1); [exact HI|reflexivity|exact N1|exact P1|].
+      exact (bump_sums st hd1 b1 i1 (fun s => s + add) W1 Hi1').
+  Qed.
+
+  Theorem step_sim st ps o : Inv st ps -> disciplined ps o ->
+    Inv (step valueof st o) (pure_step valueof ps o).
+  Proof.
+    intros HI Hd. destruct o as [keep n|h x i|h|h|h n|h n|h1 h2|h1 i1 h2 i2].
+    - apply sim_new; auto.
+    - apply sim_add; auto.
+    - apply sim_copy; auto.
+    - apply sim_sort; auto.
+    - apply sim_addempty; auto.
+    - apply sim_remove; auto.
+    - apply sim_concat; auto.
+    - apply sim_combine; auto.
+  Qed.
+
+  (** * (e) the fold *)
+  Lemma inv_empty : Inv empty_state [].
+  Proof.
+    split; [reflexivity|split].
+    - intros h hd k b Hn. destruct h; discriminate.
+    - intros h1 h2 hd1 hd2 e1 e2 _ Hn. destruct h1; discriminate.
+  Qed.
+
+  Lemma fold_sim ops : forall st ps, Inv st ps -> disciplined_run valueof ps ops ->
+    Inv (fold_left (step valueof) ops st) (fold_left (pure_step valueof) ops ps).
+  Proof.
+    induction ops as [|o t IH]; intros st ps HI Hd; cbn [fold_left]; [exact HI|].
+    destruct Hd as [Ho Ht]. apply IH; [apply step_sim; auto|exact Ht].
+  Qed.
+
+  Theorem run_inv ops : disciplined_run valueof [] ops -> Inv (run valueof ops) (pure_run valueof ops).
+  Proof. intros Hd. apply fold_sim; [apply inv_empty|exact Hd]. Qed.
+
+  Theorem run_handles_length ops : disciplined_run valueof [] ops ->
+    length (handles (run valueof ops)) = length (pure_run valueof ops).
+  Proof. intros Hd. apply (run_inv ops Hd). Qed.
+
+  Lemma inv_abs st ps h k b : Inv st ps -> plive ps h = Some (k, b) -> abs st h = Some b.
+  Proof.
+    intros HI Hp. destruct (hwf_lookup _ _ _ _ _ HI Hp) as (hd & Hn & Hw).
+    unfold abs. rewrite Hn. rewrite (hw_abs _ _ _ _ Hw). reflexivity.
+  Qed.
+
+  (** C16: every live array shows exactly the documented result *)
+  Theorem heap_refines_pure : forall ops, disciplined_run valueof [] ops ->
+    forall h k b, plive (pure_run valueof ops) h = Some (k, b) -> abs (run valueof ops) h = Some b.
+  Proof. intros ops Hd h k b Hp. eapply inv_abs; [apply run_inv; exact Hd|exact Hp]. Qed.
